@@ -6,6 +6,7 @@
   reach it: the field is crate-private), every limit and every fuel.
 -/
 import AxVerif.Lemmas.Frame
+import AxVerif.Lemmas.RipFrame
 namespace Ax.C11
 open Ax
 
@@ -288,5 +289,37 @@ theorem limit_exact (hooks : HookTable) (dec : Dec) (hk : HooksKeepCtl hooks) (N
 /-! ## Non-vacuity -/
 example : HooksKeepCtl [] := by
   intro mn e h; simp [HookTable.get] at h
+
+/-! ## RIP after a step -/
+
+/-- **Each successful step leaves RIP at the following instruction unless it transfers control**: for an instruction
+    without hooks whose form is not a jump, call or return, RIP after the step is `next_ip`. -/
+theorem step_rip_next (hooks : HookTable) (i : Instr) (s : Machine) (hd : Handler) (b : Bool)
+    (hnh : hooks.get i.mnem = none) (hl : lookup i.code = some hd) (ht : hd.isTransfer = false) (hno : NoRipOperand i)
+    (h : (stepDecoded hooks i s).out = .ok b) : (stepDecoded hooks i s).s.regs.rip = i.nextIp := by
+  unfold stepDecoded at h ⊢
+  simp only at h ⊢
+  split at h
+  · simp at h
+  · rename_i hsup
+    simp only [hsup, if_false, hnh, runEntry, stepExec] at h ⊢
+    cases hx : exec (fun mn => (hooks.get mn).isSome) i (setRip s i.nextIp) with
+    | err => simp [hx] at h
+    | panic => simp [hx] at h
+    | finish =>
+      -- only RET signals the finish, and RET is a transfer
+      have := exec_finish_ret hx
+      rw [hl] at this
+      simp only [Option.some.injEq] at this
+      subst this
+      simp [Handler.isTransfer] at ht
+    | ok s3 =>
+      have hr := exec_rip hl ht hno hx
+      simp only [hx, stepAfterExec, runEntry]
+      have hr' : s3.regs.rip = i.nextIp := by rw [hr]; rfl
+      split
+      · simp [setRip]
+      · split <;> simp [hr']
+
 
 end Ax.C11
